@@ -173,11 +173,11 @@ theorem hasError_false_of_all (rs : List OpResult) (h : ∀ r ∈ rs, r.error = 
 theorem transact_cases (σ : DbModel) (db : Database) (ops : List Operation) :
     (∃ e, transact σ db ops = ⟨[{ error := some e }], [], false⟩) ∨
     (∃ ops' results tx, expandNamedUUIDs σ ops = .ok ops' ∧
-      runOps σ db { cache := Database.empty σ } ops' = (results, tx, false) ∧ transact σ db ops = ⟨results, [], false⟩) ∨
+      runOps σ db { cache := txnCacheEmpty σ } ops' = (results, tx, false) ∧ transact σ db ops = ⟨results, [], false⟩) ∨
     (∃ ops' results tx, expandNamedUUIDs σ ops = .ok ops' ∧
-      runOps σ db { cache := Database.empty σ } ops' = (results, tx, true) ∧ transact σ db ops = ⟨results, [], true⟩) ∨
+      runOps σ db { cache := txnCacheEmpty σ } ops' = (results, tx, true) ∧ transact σ db ops = ⟨results, [], true⟩) ∨
     (∃ ops' results tx, expandNamedUUIDs σ ops = .ok ops' ∧
-      runOps σ db { cache := Database.empty σ } ops' = (results, tx, true) ∧
+      runOps σ db { cache := txnCacheEmpty σ } ops' = (results, tx, true) ∧
       transact σ db ops = commitPhase σ db results tx) := by
   unfold transact
   split
